@@ -570,6 +570,33 @@ def run_impl(case: dict) -> Tuple[List[str], List[dict]]:
     return answers, records
 
 
+def arp_sound_oracle(case: dict, answers: List[str]) -> Optional[dict]:
+    """Conclusion of theorem C08_arp_sound_preserved evaluated on the IMPLEMENTATION's final ARP caches: every entry ip -> mac
+    names an interface that carries ip, or a router interface.  Only meaningful when the model's `goodstate` check holds."""
+    macs = mac_of(case)
+    owner = {}
+    for (n, i), m in macs.items():
+        nd = case["nodes"][n]
+        if nd["kind"] == "host":
+            owner[m] = ("host", nd["ip"])
+        elif nd["kind"] == "router":
+            p = nd["ports"][i]
+            owner[m] = ("router", p["ip"] if p else "127.0.0.1")
+        else:
+            owner[m] = ("switch", None)
+    dumps = answers[len(case["ops"]):]
+    for n, line in enumerate(dumps):
+        if not line.startswith("arp"):
+            continue
+        for ent in line.split()[1:]:
+            ip, rest = ent.split(">")
+            mac = int(rest.split("@")[0])
+            kind, oip = owner.get(mac, ("?", None))
+            if not (kind == "router" or oip == ip):
+                return {"kind": "arp-cache-unsound", "op": len(case["ops"]), "what": f"node {n} caches {ip} -> MAC of {kind} {oip}"}
+    return None
+
+
 def oracle(case: dict, records: List[dict]) -> Optional[dict]:
     """The property's own statement evaluated on the IMPLEMENTATION's records (independent of the Lean model):
     (a) handling terminates (no RecursionError); (b) along one frame object every receive / routing hop sees a TTL one
